@@ -10,6 +10,10 @@ def observe(it):
         return it[1] == 1413
     return it[0] in ("nvmwr", "nvmrd", "ret", "pram", "nvm")
 
+# network variables far up in the index space (more than 8000h above 1010h / 1011h, and more of them than entries below: the first probes
+# of the dictionary search for 1010h:k / 1011h:k - store-all, restore-all, the loads at start and reset - land on them)
+FAR = [[0x9010 + i, 0, 7, 0, i] for i in range(64)]
+
 def preamble(cfg):
     gs = cfg["groups"]
     d = cfg["dflt"]
@@ -26,7 +30,7 @@ def preamble(cfg):
         for k in range(len(gs)):
             if gs[k]["type"] != 0:
                 objs.append([idx, k + 1, 3, typ, k])
-    lines += node_common.std_dict(dict(n=cfg["n"], hb=0, hc=[], objs=objs + [[0x2100, 0, 7, 0, 0], [0x2101, 0, 7, 0, 0]]))
+    lines += node_common.std_dict(dict(n=cfg["n"], hb=0, hc=[], objs=objs + [[0x2100, 0, 7, 0, 0], [0x2101, 0, 7, 0, 0]] + FAR))
     lines += ["init", "start"]
     return lines
 
